@@ -81,9 +81,13 @@ def def_module(d, defid, crate, family, cap):
     close_mods = '}\n' * len(mods)
     path = '::'.join(['super'] + mods + [d.name])
     lines = ['#![allow(dead_code, unused_imports, unused_variables, non_camel_case_types, non_snake_case, clippy::all)]', 'use crate::prelude::*;',
-             '// %s | overlays: %s' % (d.tag, '; '.join(d.overlays)), open_mods + body, close_mods]
+             '// %s | overlays: %s' % (d.tag, '; '.join(d.overlays)),
+             # a plain sibling in the same module, described before and after the definition (anything remembered per module or crate between two type_info() calls)
+             open_mods + '#[derive(TypeInfo)]\npub struct Sibling(pub u8);\n' + body, close_mods]
     lines.append('pub fn run(r: &mut Results) {\n    checks::run(r)\n}\nmod checks {\nuse crate::prelude::*;\nuse %s;' % path)
     lines.append('pub fn run(r: &mut Results) {')
+    sib = '::'.join(['super'] + mods + ['Sibling'])
+    lines.append('    let sibling_first = <%s as TypeInfo>::type_info();' % sib)
     d2 = d
     insts = [('inst', d.inst)] + ([('noinfo', d.noinfo_inst)] if d.noinfo_inst else [])
     for label, inst in insts:
@@ -98,6 +102,7 @@ def def_module(d, defid, crate, family, cap):
     if d.encode:
         vl, n = deriveg.value_checks_src(d, d.inst, defid, cap)
         lines += vl
+    lines.append('    r.sibling(%s, &sibling_first, &<%s as TypeInfo>::type_info());' % (json.dumps(defid), sib))
     lines.append('}\n}')
     src = '\n'.join(lines) + '\n'
     # resolve replace patterns in the definition source as well
